@@ -892,6 +892,8 @@ func C20(r *eng.Run) {
 		return
 	}
 	c20Totality(r)
+	c20Ownership(r)
+	c20StructuredPairs(r)
 	t0 := time.Now()
 	c20Schedules(r)
 	r.Phase("schedule exploration", t0, nil)
